@@ -4,6 +4,7 @@ import (
 	"bytes"
 	"fmt"
 	"io"
+	"runtime"
 	"strings"
 	"testing"
 	"testing/iotest"
@@ -407,6 +408,45 @@ func TestC01(t *testing.T) {
 			c.Sig("builder/huge", true)
 		})
 	}
+	if !r.Quick() {
+		// a whole value of more than 2^30 bytes (AsBytes, not streaming): about 3 GiB of memory for a moment
+		r.Case("builder/whole-value-over-1GiB", map[string]any{"len": int64(1)<<30 + 1<<20 + 12, "chunker": "size-1048576"}, func(c *mon.Case) {
+			n := int64(1)<<30 + 1<<20 + 12
+			st := store.New()
+			var l ipld.Link
+			var err error
+			withWidth(174, func() {
+				l, _, err = builder.BuildUnixFSFile(&zeroReader{left: n}, "size-1048576", st.LinkSystem(false))
+			})
+			if err != nil {
+				c.Violation("C01|build-error", "%v", err)
+				return
+			}
+			node, err := loadReified(st.LinkSystem(true), linkCid(l))
+			if err != nil {
+				c.Violation("C01|open|reify", "%v", err)
+				return
+			}
+			var b []byte
+			if !c.Guard("AsBytes of 1 GiB + 1 MiB + 12", func() { b, err = node.AsBytes() }) {
+				return
+			}
+			c.Count("reads_compared", 1)
+			nonzero := false
+			for _, x := range b {
+				if x != 0 {
+					nonzero = true
+					break
+				}
+			}
+			if err != nil || int64(len(b)) != n || nonzero {
+				c.Violation("C01|bytes-differ|AsBytes", "AsBytes of a file of %d bytes returned %d bytes (non-zero byte seen: %v), err %v", n, len(b), nonzero, err)
+			}
+			b = nil
+			runtime.GC()
+			c.Sig("builder/whole-value-over-1GiB", true)
+		})
+	}
 	// files written by the reference importer in its eight modes
 	modes := []oracle.ImportMode{}
 	for _, lay := range []string{"balanced", "trickle"} {
@@ -416,6 +456,8 @@ func TestC01(t *testing.T) {
 			}
 		}
 	}
+	// ... and with small blocks inlined into identity CIDs (ipfs add --inline)
+	modes = append(modes, oracle.ImportMode{Layout: "balanced", RawLeaves: false, CidV1: true, Inline: 24}, oracle.ImportMode{Layout: "balanced", RawLeaves: true, CidV1: true, Inline: 40}, oracle.ImportMode{Layout: "trickle", RawLeaves: false, CidV1: true, Inline: 64})
 	counts := []int{0, 1, 2, 3, 4, 5, 9, 10, 13, 27, 28, 40}
 	if !r.Quick() {
 		counts = nil
